@@ -53,11 +53,13 @@ def run(ctx):
             ctx.cov["states"] += r.distinct
             ctx.cov["transitions"] += r.generated
         ctx.cov["tlc_runs"].append({"name": "gen_" + name, "generated": r.generated, "distinct": r.distinct, "cases": len(h), "wall_s": round(r.wall, 1)})
+        h.sort(key=canon)       # TLC's workers print in no fixed order; the sample below must depend on the seed only
         return h
 
     # 2. every Browse (node, direction, filter, class mask, page size) followed to the end of its chain
-    cfgs = [MIXED, SMALL, [], [kid("HC", "Variable")] * 4]
+    cfgs = [MIXED, [], [kid("HC", "Variable")] * 4]
     if not q:
+        cfgs += [SMALL]
         cfgs += [[kid(t, c) for t, c in zip(ts, cs)] for ts in (("OR", "OR", "HC", "HP"), ("HP", "HC", "OR", "OR", "HC", "HP"))
                  for cs in (("Object",) * 6, ("Variable", "Object") * 3)]
     h = gen("chains", dict(base, Mode="chain", KidConfigs=kidset(cfgs), **allb))
@@ -67,11 +69,11 @@ def run(ctx):
     #    and effective / ineffective modifications up to the depth bound
     h = gen("interleavings", dict(base, MaxDepth=3, Pages={1}, RefTypes={"HC"}) if q else base)
     ninter = len(h)
-    add(take(h, 2000 if q else 30000, ctx.seed))
+    add(take(h, 2000 if q else 20000, ctx.seed))
     if not q:
         h = gen("interleavings4", dict(base, MaxDepth=4, Pages={1}, RefTypes={"HC"}, ModKinds={"AddNode", "AddRef", "DelNode", "DelRef"}))
         ninter += len(h)
-        add(take(h, 30000, ctx.seed))
+        add(take(h, 20000, ctx.seed))
     # 4. longer random behaviours over the whole input space
     n = 150 if q else 2000
     seeds = {(int(ctx.seed) * 7919 + i * 104729) % 65537 for i in range(n)}
@@ -135,7 +137,7 @@ def run(ctx):
     ctx.assumptions += [
         "the unlimited result `full` is obtained by the harness with requestedMaxReferencesPerNode = 0 through the same session right before "
         "each Browse; the server caps it at 255 references, the generated folders have at most 10",
-        "the harness sleeps 2 ms before every modification request, so that the address space change is unambiguously later than every "
+        "the harness sleeps 1 ms before every modification request, so that the address space change is unambiguously later than every "
         "continuation point made before it (the server compares wall clock stamps); two modifications within the clock resolution are not exercised",
         "a modification counts as a change when the nodes / references of the generated folder differ afterwards (read directly from the "
         "address space); after a modification request that changed nothing the monitor accepts both answers for older continuation points",
